@@ -227,6 +227,71 @@ def _run_task(arg):
     return d
 
 
+def _child(arg, conn):
+    try:
+        conn.send(_run_task(arg))
+    except Exception as e:            # unpicklable result etc.
+        ctx = TaskCtx(arg[1], arg[2], arg[3])
+        ctx.errors.append('%s: %s' % (type(e).__name__, e))
+        conn.send(ctx.export())
+    finally:
+        conn.close()
+
+
+def _run_parallel(args, jobs, limit_s):
+    """One process per task, at most `jobs` at a time.  A task that exceeds
+    the wall-clock limit (a solver call that never returns) is killed and
+    run once more; if it overruns again it is reported as undecided -- the
+    check then exits 2, it never hangs."""
+    ctxm = mp.get_context('fork')
+    todo = [(x, 0) for x in args]
+    running = {}
+    outs = []
+    while todo or running:
+        while todo and len(running) < jobs:
+            arg, attempt = todo.pop(0)
+            pc, cc = ctxm.Pipe(duplex=False)
+            pr = ctxm.Process(target=_child, args=(arg, cc))
+            pr.start()
+            cc.close()
+            running[pr.pid] = (pr, pc, arg, attempt, time.time())
+        done = []
+        for pid, (pr, pc, arg, attempt, t_start) in running.items():
+            if pc.poll(0):
+                try:
+                    outs.append(pc.recv())
+                except EOFError:
+                    ctx = TaskCtx(arg[1], arg[2], arg[3])
+                    ctx.errors.append('worker died without a result')
+                    outs.append(ctx.export())
+                pr.join(5)
+                done.append(pid)
+            elif not pr.is_alive():
+                ctx = TaskCtx(arg[1], arg[2], arg[3])
+                ctx.errors.append('worker exited with code %s' % pr.exitcode)
+                outs.append(ctx.export())
+                done.append(pid)
+            elif time.time() - t_start > limit_s:
+                pr.kill()
+                pr.join(5)
+                if attempt == 0:
+                    todo.append((arg, 1))
+                else:
+                    ctx = TaskCtx(arg[1], arg[2], arg[3])
+                    ctx.outside('%s.timeout' % arg[1], 'task exceeded %d s '
+                                'twice and was killed' % limit_s)
+                    d = ctx.export()
+                    d['seconds'] = limit_s
+                    d['timed_out'] = True
+                    outs.append(d)
+                done.append(pid)
+        for pid in done:
+            running.pop(pid)
+        if not done:
+            time.sleep(0.05)
+    return outs
+
+
 def load_json(path, default):
     try:
         with open(path) as f:
@@ -275,10 +340,9 @@ def main(argv=None):
     if a.jobs <= 1 or len(args) <= 1:
         outs = [_run_task(x) for x in args]
     else:
-        ctxm = mp.get_context('fork')
-        with ctxm.Pool(min(a.jobs, len(args))) as pool:
-            for d in pool.imap_unordered(_run_task, args, chunksize=1):
-                outs.append(d)
+        outs = _run_parallel(args, min(a.jobs, len(args)),
+                             int(os.environ.get('PYVC_TASK_LIMIT', 0)) or (
+                                 1800 if a.tier == 'quick' else 4 * 3600))
     outs.sort(key=lambda d: tasks.index(d['task']))
     return report(prop, mod, a, outs, seed, t0)
 
@@ -364,7 +428,8 @@ def report(prop, mod, a, outs, seed, t0):
         print('baseline written: %d proved, %d not proved' %
               (len(bl['proved']), len(bl['known'])))
         for n in bl['known']:
-            print('   not proved:', n, byname[n]['verdict'])
+            print('   not proved:', n, byname[n]['verdict'] if n in byname
+                  else '(kept from the previous baseline)')
 
     violations = []
     known_lines = []
@@ -422,8 +487,10 @@ def report(prop, mod, a, outs, seed, t0):
                                     's' if len(ns) > 1 else '',
                                     ', '.join(ns[:3]) +
                                     (', ...' if len(ns) > 3 else '')))
-    # obligations that disappeared
-    if not a.only:
+    # obligations that disappeared (not decidable when a task was killed by
+    # the watchdog: its obligations are unknown, never violations)
+    timed = [d['task'] for d in outs if d.get('timed_out')]
+    if not a.only and not timed:
         for n in sorted(base_proved):
             if n not in byname and in_scope(n):
                 path = os.path.join(VERIF, 'replays', '%s__%s.json' % (
